@@ -27,7 +27,7 @@ RULE = ("Hypothesis draws (partitioning mp/re, first_order_singles, request "
         "Non-trivial: order >= 2, or class >= triples, or a two-particle "
         "operator, or RE, and a non-zero reference.")
 BUDGET = {"quick": 110, "thorough": 1800}
-N_EXAMPLES = {"quick": 14, "thorough": 160}
+N_EXAMPLES = {"quick": 30, "thorough": 300}
 ASSUMPTIONS = ["MP models have f_ov = 0 (the derivation documents a block "
                "diagonal H0); closed-form MP amplitudes need a canonical "
                "(diagonal) Fock matrix"]
